@@ -35,6 +35,43 @@ fn message(method: &str, cls: &[&str], tes: &[&str], expect: bool, body: &[u8]) 
     m.extend(body);
     m
 }
+/// Expect / Content-Type: what the handler is told is a function of those header fields alone, and exactly those fields are
+/// consumed -- every other field stays in the list, in order
+fn derived(expects: &[&str], cts: &[&str]) -> Option<String> {
+    let desc = format!("derived expect={expects:?} ct={cts:?}");
+    let mut m = b"GET /p HTTP/1.1\r\nx-a: 1\r\n".to_vec();
+    for (i, v) in expects.iter().enumerate() { m.extend(format!("{}: {v}\r\n", if i % 2 == 0 { "Expect" } else { "expect" }).bytes()); }
+    m.extend(b"x-b: 2\r\n");
+    for (i, v) in cts.iter().enumerate() { m.extend(format!("{}: {v}\r\n", if i % 2 == 0 { "Content-Type" } else { "content-type" }).bytes()); }
+    m.extend(b"x-c: 3\r\n\r\n");
+    let want_expect = expects.len() == 1 && expects[0].trim_matches(|c| c == ' ' || c == '\t') == "100-continue";   // (the head parser strips surrounding blanks)
+    // the media types the library documents, by their IANA names (parameters are not part of the type)
+    let table: [(&str, servlin::ContentType); 16] = [("text/css", servlin::ContentType::Css), ("text/csv", servlin::ContentType::Csv), ("text/event-stream", servlin::ContentType::EventStream),
+        ("application/x-www-form-urlencoded", servlin::ContentType::FormUrlEncoded), ("image/gif", servlin::ContentType::Gif), ("text/html", servlin::ContentType::Html),
+        ("text/javascript", servlin::ContentType::JavaScript), ("image/jpeg", servlin::ContentType::Jpeg), ("application/json", servlin::ContentType::Json), ("text/markdown", servlin::ContentType::Markdown),
+        ("multipart/form-data", servlin::ContentType::MultipartForm), ("application/octet-stream", servlin::ContentType::OctetStream), ("application/pdf", servlin::ContentType::Pdf),
+        ("text/plain", servlin::ContentType::PlainText), ("image/png", servlin::ContentType::Png), ("image/svg+xml", servlin::ContentType::Svg)];
+    let want_ct = if cts.len() != 1 { servlin::ContentType::None } else {
+        let whole = cts[0].trim_matches(|c| c == ' ' || c == '\t');
+        let essence = whole.split(';').next().unwrap_or("");
+        if essence.is_empty() { servlin::ContentType::None } else { table.iter().find(|(n, _)| *n == essence).map(|(_, t)| t.clone()).unwrap_or(servlin::ContentType::String(whole.to_string())) } };
+    let res = std::panic::catch_unwind(|| {
+        let mut buf: FixedBuf<8192> = FixedBuf::new();
+        let mut rd = ScriptReader::new(vec![Step::Data(m.clone()), Step::Eof]);
+        let addr = std::net::SocketAddr::from(([127, 0, 0, 1], 1));
+        block_on(read_http_request(addr, &mut buf, &mut rd))
+    });
+    let req = match res { Err(_) => return Some(format!("{desc} expected=request actual=panic")), Ok(Err(e)) => return Some(format!("{desc} expected=request actual={e:?}")), Ok(Ok(r)) => r };
+    if req.expect_continue != want_expect { return Some(format!("{desc} expected=expect_continue={want_expect} actual={}", req.expect_continue)); }
+    if req.content_type != want_ct { return Some(format!("{desc} expected=content_type={want_ct:?} actual={:?}", req.content_type)); }
+    let left: Vec<String> = req.headers.iter().map(|h| h.name.as_str().to_ascii_lowercase()).collect();
+    let mut want_left = vec!["x-a".to_string()];
+    if expects.len() > 1 { want_left.extend(std::iter::repeat("expect".to_string()).take(0)); }
+    want_left.push("x-b".into()); want_left.push("x-c".into());
+    let others: Vec<String> = left.iter().filter(|n| n.starts_with("x-")).cloned().collect();
+    if others != want_left { return Some(format!("{desc} expected=other fields kept in order {want_left:?} actual={others:?}")); }
+    None
+}
 /// one message followed by a marker request; returns a finding if the framing disagrees or the
 /// byte after the body is not taken as the start of the next request
 fn run(method: &str, cls: &[&str], tes: &[&str], expect: bool, split: usize) -> Option<String> {
@@ -90,6 +127,12 @@ fn main() {
     if args.len() >= 3 && args[1] == "replay" {
         let w = args[2..].join(" ");
         let get = |k: &str| w.split(&format!("{k}=")).nth(1).unwrap_or("").to_string();
+        let lists0 = |s: String| -> Vec<String> { s.split(']').next().unwrap().trim_start_matches('[').split("\", \"").map(|x| x.trim_matches('"').to_string()).filter(|x| !(x.is_empty() && s.starts_with("[]"))).collect() };
+        if w.starts_with("derived ") {
+            let e = lists0(get("expect")); let c = lists0(get("ct"));
+            let e: Vec<&str> = e.iter().map(String::as_str).collect(); let c: Vec<&str> = c.iter().map(String::as_str).collect();
+            match derived(&e, &c) { Some(m) => { println!("WITNESS {m}"); std::process::exit(1) } None => { println!("OK witness no longer fails"); std::process::exit(0) } }
+        }
         let method = get("method").split(' ').next().unwrap().to_string();
         let lists = |s: String| -> Vec<String> { s.split(']').next().unwrap().trim_start_matches('[').split("\", \"").map(|x| x.trim_matches('"').to_string()).filter(|x| !(x.is_empty() && s.starts_with("[]"))).collect() };
         let cls = lists(get("cl")); let tes = lists(get("te"));
@@ -109,6 +152,14 @@ fn main() {
             if let Some(m) = run(method, cls, tes, expect, split) { if found.len() < 8 { found.push(m) } }
         }}}}
     }
+    let exp_sets: Vec<Vec<&str>> = vec![vec![], vec!["100-continue"], vec!["100-Continue"], vec!["100-continue "], vec!["other"], vec![""], vec!["100-continue", "100-continue"], vec!["other", "100-continue"]];
+    let mut ct_sets: Vec<Vec<&str>> = vec![vec![], vec![""], vec!["text/unknown"], vec!["TEXT/PLAIN"], vec!["text/plain", "text/html"], vec![";charset=x"], vec!["text/plain ;x"]];
+    let names = ["text/css", "text/csv", "text/event-stream", "application/x-www-form-urlencoded", "image/gif", "text/html", "text/javascript", "image/jpeg", "application/json", "text/markdown",
+        "multipart/form-data", "application/octet-stream", "application/pdf", "text/plain", "image/png", "image/svg+xml"];
+    let with_param: Vec<String> = names.iter().map(|n| format!("{n}; charset=UTF-8")).collect();
+    for n_ in names.iter() { ct_sets.push(vec![n_]); }
+    for w in with_param.iter() { ct_sets.push(vec![w.as_str()]); }
+    for e in &exp_sets { for c in &ct_sets { n += 1; if let Some(m) = derived(e, c) { if found.len() < 8 { found.push(m) } } } }
     println!("EVALUATED {n}");
     for f in &found { println!("WITNESS {f}"); }
     std::process::exit(if found.is_empty() { 0 } else { 1 });
